@@ -135,10 +135,12 @@ def run(ctx):
             n = 60 if not thorough else 1500
             lines = list(CORPUS) + [gen_script(rng) for _ in range(n)]
             base = rng.randint(1, 10 ** 6)
-            reals = ["P tcp 6", "P udp 4", "P tcp 12", "C close", "C data", "C connect", "Y tcp 3", "Y udp 3"]
+            # K first: it installs the global yield hook, which a detached self-destructing engine thread of a later C scenario
+            # may still be reading
+            reals = ["K tcp", "K udp", "P tcp 6", "P udp 4", "P tcp 12", "C close", "C data", "C connect", "Y tcp 3", "Y udp 3"]
             reals += ["X %s 4 %d %d" % ("udp" if i % 3 == 2 else "tcp", rng.choice([15, 40, 90]), base + i) for i in range(8 if not thorough else 120)]
             if thorough:
-                reals = reals * 4
+                reals = reals[:2] + reals[2:] * 4
             lines += reals
             li, lm, log = vlib.run_pair(ctx, impl_exe, model_exe, lines, "c05h", timeout=3000)
             nontrivial = 0
@@ -163,6 +165,7 @@ def run(ctx):
                         what = "parked callers / destructor progress differ from the handshake model: impl %s, model %s" % (ri[:200], rm[:200])
                     else:
                         sig = ("callback-after-stop" if "callback-after-stop" in ri else
+                               "operation-accepted-after-teardown" if "after-queue-drained" in ri else
                                "caller-stranded-or-wrong-result" if ("still-inside" in ri or "result:" in ri or "over-bound" in ri or "took" in ri) else "teardown-scenario")
                         what = "real engine: %s" % ri[:300]
                     v.property_failure(sig, what, line, "impl:  %s\nmodel: %s" % (ri, rm))
@@ -171,7 +174,7 @@ def run(ctx):
             # ThreadSanitizer build on the real-engine scenarios
             tsan_reports = None
             if tsan_exe:
-                tl = [l for l in reals if l[0] in "PXCY"][: (14 if not thorough else 60)]
+                tl = [l for l in reals if l[0] in "PXCYK"][: (14 if not thorough else 60)]
                 cf = os.path.join(ctx["workdir"], "c05tsan.cases")
                 open(cf, "w").write("\n".join(tl) + "\n")
                 rc, out = vlib.sh([tsan_exe, cf, cf + ".out"], timeout=2400, env={"TSAN_OPTIONS": "halt_on_error=0:report_signal_unsafe=0:second_deadlock_stack=1"})
@@ -190,7 +193,7 @@ def run(ctx):
                            "releases in random order, destructor-done probes; compared with the extracted model: every thread's result and "
                            "whether ~Impl has run. Real engines: park-and-destroy (TCP/UDP), storms of connectSync / connect / receiveSync / "
                            "setReadMode / send / sendSync / close / addListener / getStats / observe against stop(), sole-owner release "
-                           "inside close / data / connect callbacks, restart cycles. ASan+UBSan on all, TSan on the real-engine ones "
+                           "inside close / data / connect callbacks, restart cycles, operations issued from the residual-close callback of shutdownDrain (must be refused). ASan+UBSan on all, TSan on the real-engine ones "
                            "(%s reports)." % tsan_reports)
             cov["samples"] = ["scenario kinds: %s" % sorted(kinds.items())]
     rc = v.finish()
